@@ -252,6 +252,11 @@ CheckHistoryStep(e) ==
     /\ V("C04", e, ~(Sane(f) /\ WellFormed(f)) \/ (Sane(h) /\ WellFormed(h)), "the tree is no longer well-formed after " \o e.op, "history-wf")
     /\ V("C05", e, ~Sane(h) \/ ~Sane(f) \/ ~CacheSound(f) \/ CacheSound(h),
          "a cached witness violates its path conditions or a node with non-empty interior is marked infeasible after " \o e.op, "cache/" \o BadCacheKind(h))
+    \* the state helpers of node.rs answer what the stored state says
+    /\ V("C05", e, \A n \in 1..Len(e.post.nodes) : LET nd == e.post.nodes[n] IN "hf" \notin DOMAIN nd \/
+            (/\ (nd.hf[1] = 1) = (nd.st \in {"F", "W"}) /\ (nd.hf[2] = 1) = (nd.st = "X") /\ (nd.hf[3] = 1) = (nd.st = "I")
+             /\ nd.hf[4] = (IF nd.st = "W" THEN Len(nd.w) ELSE 0) /\ nd.hf[5] = 1),
+         "is_feasible / is_infeasible / is_indetermined / feasible_witnesses / to_poly disagree with the stored node state", "state-helpers")
     /\ CheckLp(e)
 
 CheckEvent(e) ==
